@@ -34,7 +34,7 @@ where
     }
 
     pub fn clear(&mut self) {
-        self.root_mut().take();
+        drop_subtree(self.root_mut().take());
         self.size = 0;
     }
 
@@ -389,6 +389,31 @@ impl<K, V> DoubleEndedIterator for IntoIter<K, V> {
 }
 
 impl<K, V> ExactSizeIterator for IntoIter<K, V> {}
+
+impl<K, V> Drop for IntoIter<K, V> {
+    fn drop(&mut self) {
+        drop_subtree(self.cur.take());
+    }
+}
+
+/// Drops all nodes of a subtree iteratively. The derived drop glue of `Node` recurses along
+/// the child links, i.e. as deep as the tree is high, which overflows the stack for the
+/// degenerate (chain-shaped) trees produced e.g. by monotone insertion. Here every node is
+/// detached from its children before it is dropped (right rotations flatten left chains).
+fn drop_subtree<K, V>(root: Option<Box<Node<K, V>>>) {
+    let mut cur = root;
+    while let Some(mut node) = cur {
+        cur = match node.pop_left() {
+            Some(mut left) => {
+                node.left = left.pop_right();
+                left.right = Some(node);
+                Some(left)
+            }
+            // `node` has no children left and is dropped here.
+            None => node.pop_right(),
+        };
+    }
+}
 
 /// Performs a top-down splay operation on a tree rooted at `node`. This will
 /// modify the pointer to contain the new root of the tree once the splay
